@@ -529,6 +529,9 @@ func validate(s *Script, strict bool) bool {
 			return false
 		}
 		if me.pc >= len(me.acts) {
+			if strict && !isClient && me.sent > peer.got && !peer.ended {
+				return false // the handler's final packet queues behind its unreceived message
+			}
 			me.ended = true // client: implicit close; handler: return
 			return true
 		}
@@ -597,7 +600,7 @@ func validate(s *Script, strict bool) bool {
 		if c.pc >= len(c.acts) {
 			c.ended = true
 		}
-		if h.pc >= len(h.acts) {
+		if h.pc >= len(h.acts) && !(strict && h.sent > c.got && !c.ended) {
 			h.ended = true
 		}
 		if c.ended && h.ended {
